@@ -1,3 +1,9 @@
+/-
+Helper lemmas for C09 (Any part): the ownership invariant `AInv` of the holder heap (held holders
+are allocated, no holder is shared, every allocated holder is owned, fresh ids are unallocated),
+its preservation by every operation (`astep_inv`), the abstraction `absA`, the value-level
+reference semantics `ARef.step` and the commutation `astep_abs`.
+-/
 import RkVerif.Lemmas.C09
 set_option linter.unusedSectionVars false
 namespace RkVerif.C09
